@@ -1074,6 +1074,11 @@ func (s *Stream) appendOutFramesLocked(w *packetWriter, pnum packetNumber, pto b
 		if !added {
 			return false
 		}
+		if int64(len(b)) < size {
+			// The frame was truncated to fit in the packet,
+			// so it does not end the stream and does not carry the FIN bit.
+			fin = false
+		}
 		s.out.copy(off, b)
 		end := off + int64(len(b))
 		if end > s.outmaxsent {
